@@ -256,6 +256,14 @@ class ListPolicy(Policy):
                 if self.strict:
                     raise Deadlock(f"schedule names {d} which is not enabled")
                 continue
+            if d[0] == "until":
+                # keep running `actor` until it has returned from k of its operations (Ret events)
+                a = s.actors.get(d[1])
+                done = sum(1 for e in s.trace if e.get("a") == d[1] and e.get("k") == "Ret")
+                if a is not None and a in enabled and done < int(d[2]):
+                    self.i -= 1
+                    return ("actor", a)
+                continue
             if d[0] == "env":
                 return ("env", d[1])
             if d[0] == "crash":
